@@ -308,7 +308,8 @@ def mn_do_load(ir, instr, arg1, arg2, arg3=None):
     ret.append(ExprAssign(arg1, src))
     if has_u:
         if arg3 is None:
-            ret.append(ExprAssign(arg2.ptr.args[0], address))
+            base = arg2.ptr if arg2.ptr.is_id() else arg2.ptr.args[0]
+            ret.append(ExprAssign(base, address))
         else:
             ret.append(ExprAssign(arg2, address))
 
@@ -659,7 +660,8 @@ def mn_do_store(ir, instr, arg1, arg2, arg3=None):
     ret.append(ExprAssign(dest, src))
     if has_u:
         if arg3 is None:
-            ret.append(ExprAssign(arg2.ptr.args[0], address))
+            base = arg2.ptr if arg2.ptr.is_id() else arg2.ptr.args[0]
+            ret.append(ExprAssign(base, address))
         else:
             ret.append(ExprAssign(arg2, address))
 
